@@ -79,6 +79,7 @@ func c14Run(sc *C14Scenario) (v *nodeViolation, flags map[string]bool) {
 	sn.node.outputFetcher = gf
 	sn.blockCtx = roleCtx(sn.ctx, "block")
 	var clock time.Duration
+	shiftBase := sn.shift // the node's time hook may already have been shifted while it synced
 	// the node measures its request window on the real clock plus the hook's shifts; the harness
 	// knows the shifts exactly (clock) and the real part only as an interval: between zero and the
 	// real time the scenario has taken so far (race windows hold a thread for up to half a second)
@@ -288,13 +289,106 @@ func c14Run(sc *C14Scenario) (v *nodeViolation, flags map[string]bool) {
 				u.closed = true
 				tracked[k+1] = map[int]bool{}
 			}
+			// while the connection is down the peer may mine a block with some of the transactions: the
+			// node then processes it while catching up (not in sync)
+			var minedList []int
+			var nb *verifkit.TBlock
+			if len(ev.Txs) > 0 {
+				var body []*wire.MsgTx
+				seen := map[int]bool{}
+				for _, i := range ev.Txs {
+					i = i % sc.NTx
+					if confirmed[i] || seen[i] {
+						continue
+					}
+					seen[i] = true
+					minedList = append(minedList, i)
+					body = append(body, txs[i])
+				}
+				tipName++
+				nb = tree.Add(tip, verifkit.ChainName("a", tipName), body)
+				tip = nb
+				sn.peer.best = nb
+			}
 			sn.reconnect()
 			insync := func() bool { return sn.node.state.IsReady() && sn.peer.sendHeaders }
-			if ok, _ := sn.fairCompletion(func() bool { c, _ := sn.converged(); return c && insync() }, 60); !ok {
+			goal := func() bool { c, _ := sn.converged(); return c && insync() && len(sn.peer.toNode) == 0 }
+			inMined := map[int]bool{}
+			for _, i := range minedList {
+				inMined[i] = true
+			}
+			processed := func() bool { return nb != nil && sn.node.blocks.Contains(&nb.Hash) }
+			// one step of the catch-up; what the connections are asked during a step is judged with
+			// what was true before it: a transaction of the block mined meanwhile must not be asked
+			// for once that block has been processed; everything else is recorded without a verdict
+			var catchV *nodeViolation
+			stepDo := func(f func() bool) bool {
+				was := processed()
+				ok := f()
+				for _, r := range collect() {
+					if was && inMined[r.tx] && catchV == nil {
+						catchV = &nodeViolation{"C14/request-after-confirmation", fmt.Sprintf("%s: tx%d was confirmed by the block the node processed while catching up after the reconnect, and connection %d was asked for it afterwards", where, r.tx, r.src)}
+					}
+					hasReq[r.tx] = true
+					lastReq[r.tx] = r.at
+					lastReqHi[r.tx] = r.atHi
+					delete(tracked[r.src], r.tx)
+				}
+				return ok
+			}
+			// the same completion the other checks use (deliver, process, ping; when nothing moves let the
+			// node's own time-outs fire), with the request log read after every step
+			idle := 0
+			for r := 0; r < 80 && !goal(); r++ {
+				before := sn.progress
+				for stepDo(func() bool { return sn.deliverNext(0) }) {
+					for stepDo(sn.blockStep) {
+					}
+				}
+				stepDo(func() bool { sn.ping(); return false })
+				for stepDo(sn.blockStep) {
+				}
+				if sn.progress != before {
+					idle = 0
+					continue
+				}
+				idle++
+				if idle > 6 {
+					break
+				}
+				sn.passTime(11 * time.Minute)
+				clock = sn.shift - shiftBase
+				eventStart = clockHi()
+				flags["catch-up-needed-time-outs"] = true
+				stepDo(func() bool { sn.timeoutCheck(); return false })
+			}
+			if !goal() {
 				flags["no-resync-after-reconnect"] = true
 				return nil, flags // no verdict
 			}
+			if sn.blockThreadDead != "" {
+				return &nodeViolation{"C14/block-thread-exit", sn.blockThreadDead}, flags
+			}
+			if catchV != nil {
+				return catchV, flags
+			}
+			clock = sn.shift - shiftBase
 			flags["reconnect"] = true
+			if nb != nil && *sn.node.blocks.LastHash() == nb.Hash {
+				for _, i := range minedList {
+					confirmed[i] = true
+					reannounced[i] = false
+					delete(hasReq, i)
+					delete(arrived, i)
+					delete(queued, i)
+					for s := range tracked {
+						delete(tracked[s], i)
+					}
+				}
+				if len(minedList) > 0 {
+					flags["confirmed-while-catching-up"] = true
+				}
+			}
 			if v := judgeFresh(collect(), where); v != nil {
 				return v, flags
 			}
@@ -506,7 +600,14 @@ func genC14(t *rapid.T) *C14Scenario {
 	for i := 0; i < n; i++ {
 		ev := C14Event{Op: rapid.SampledFrom([]string{"inv", "inv", "inv", "inv", "body", "txstep", "txstep", "time", "time", "check", "check", "check", "mine"}).Draw(t, "op")}
 		if reconnects && rapid.IntRange(0, 11).Draw(t, "reconnect") == 0 {
-			ev.Op = "reconnect"
+			ev = C14Event{Op: "reconnect"}
+			if rapid.Bool().Draw(t, "minedmeanwhile") {
+				for k, c := 0, rapid.IntRange(1, 3).Draw(t, "cnt"); k < c; k++ {
+					ev.Txs = append(ev.Txs, rapid.IntRange(0, sc.NTx-1).Draw(t, "tx"))
+				}
+			}
+			sc.Events = append(sc.Events, ev)
+			continue
 		}
 		switch ev.Op {
 		case "inv":
@@ -545,7 +646,7 @@ func c14Nontrivial(f map[string]bool) bool {
 	return f["announced-while-requested"] && (f["window-expiry"] || f["delivery"])
 }
 
-const c14Rule = "step-mode histories with the real trusted and untrusted inventory handlers and trackers (real UntrustedNode objects, 1..3 of them) over one mempool: inv of overlapping txid sets on any connection (one case in fifteen announces 90-260 txids on two connections, more than one re-request message holds), bodies from any connection, logical time steps (0.5 s, 2.9 s, 3.1 s, 7 s via the time-shift hook), activity/check on a connection, blocks confirming txid sets, reconnects of the trusted connection by the same process (a quarter of the histories; untrusted connections end, mempool, request times and the trusted tracker persist), and blocks whose processing goroutine is held at a drawn storage/fetcher operation while connections get activity; oracle over the per-connection getdata(tx) log with logical time stamps: first request issued, no second request inside the 3 s window, none after the body was processed or confirmed, re-request on the next activity of a connection that announced it; non-trivial = at least two connections announce one txid and a window expiry or a delivery occurs; distinct by scenario hash"
+const c14Rule = "step-mode histories with the real trusted and untrusted inventory handlers and trackers (real UntrustedNode objects, 1..3 of them) over one mempool: inv of overlapping txid sets on any connection (one case in fifteen announces 90-260 txids on two connections, more than one re-request message holds), bodies from any connection, logical time steps (0.5 s, 2.9 s, 3.1 s, 7 s via the time-shift hook), activity/check on a connection, blocks confirming txid sets, reconnects of the trusted connection by the same process (a quarter of the histories; untrusted connections end, mempool, request times and the trusted tracker persist; in half of them the peer has mined a block with generated txs meanwhile, which the node processes while catching up), and blocks whose processing goroutine is held at a drawn storage/fetcher operation while connections get activity; oracle over the per-connection getdata(tx) log with logical time stamps: first request issued, no second request inside the 3 s window, none after the body was processed or confirmed, re-request on the next activity of a connection that announced it; non-trivial = at least two connections announce one txid and a window expiry or a delivery occurs; distinct by scenario hash"
 
 func TestC14Requests(t *testing.T) {
 	rep := verifkit.NewReport("C14", "TestC14Requests", c14Rule)
